@@ -7,7 +7,7 @@
 //   scen <prim> <init> <sec> <nsec> <quantum_ns> <spur> <eintr> T:<ret>:<op>,<op>,... T:<ret>:...   -> ok <threads>
 //        prim = mtx | sem | sig | mon | thr ; init = initial count (sem) / initially set (sig)
 //        ops  = lock try-<skip> unlock | signal wait twait-<ms> trywait | set reset wait twait-<ms> |
-//               lock try-<skip> unlock wait twait-<ms> set | start-<j> join-<j> | destroy (sig: delete the Signal)
+//               lock try-<skip> unlock wait twait-<ms> set | start-<j> mstart-<j> (member-function overload) join-<j> | destroy (sig: delete the Signal)
 //        try-<skip>: on failure the next <skip> ops of the thread are skipped
 //   run <t.a>,<t.a>,...    (or `run -`)  explicit schedule prefix, default policy afterwards
 //        -> init:<events> <t.a>/<candidates>:<events> ... | <verdict>
@@ -34,7 +34,7 @@ int Debug::printf(const char* format, ...)
 }
 
 enum Prim { P_NONE, P_MTX, P_SEM, P_SIG, P_MON, P_THR };
-enum OpK { K_LOCK, K_TRY, K_UNLOCK, K_SIGNAL, K_WAIT, K_TWAIT, K_TRYWAIT, K_SET, K_RESET, K_START, K_JOIN, K_DESTROY };
+enum OpK { K_LOCK, K_TRY, K_UNLOCK, K_SIGNAL, K_WAIT, K_TWAIT, K_TRYWAIT, K_SET, K_RESET, K_START, K_MSTART, K_JOIN, K_DESTROY };
 struct Op { OpK k; long arg; };
 struct Prog { Op ops[64]; int n; unsigned long ret; };
 
@@ -59,6 +59,8 @@ static void leave(int t)
 }
 
 static uint body(void* p);
+struct Body { int t; uint run(); };   // thread body for the member-function overload of Thread::start
+static Body bodies[SCHED_MAXT];
 
 static void runProg(int t)
 {
@@ -109,6 +111,13 @@ static void runProg(int t)
       sched_event("%d=%d", k, r ? 1 : 0); break;
     }
     case K_DESTROY: delete sig; sig = 0; sched_event("%d=v", k); break;   // ~Signal: the caller asserts that nobody uses it any more
+    case K_MSTART:   // template <class X> bool Thread::start(X& obj, uint (X::*ptr)())
+    {
+      sched_set_next_tid((int)o.arg);
+      bodies[o.arg].t = (int)o.arg;
+      bool r = thr[o.arg]->start(bodies[o.arg], &Body::run);
+      sched_event("%d=%d", k, r ? 1 : 0); break;
+    }
     case K_JOIN: { uint r = thr[o.arg]->join(); sched_event("%d=%u", k, r); break; }
     }
   }
@@ -117,6 +126,12 @@ static void runProg(int t)
 static uint body(void* p)
 {
   int t = (int)(long)p;
+  runProg(t);
+  return (uint)prog[t].ret;
+}
+
+uint Body::run()
+{
   runProg(t);
   return (uint)prog[t].ret;
 }
@@ -139,6 +154,7 @@ static bool parseOp(char* s, Op& o)
   else if(!strcmp(s, "reset") && !dash && si) o.k = K_RESET;
   else if(!strcmp(s, "destroy") && !dash && si) o.k = K_DESTROY;
   else if(!strcmp(s, "start") && dash && arg > 0 && arg < SCHED_MAXT) o.k = K_START;
+  else if(!strcmp(s, "mstart") && dash && arg > 0 && arg < SCHED_MAXT) o.k = K_MSTART;
   else if(!strcmp(s, "join") && dash && arg > 0 && arg < SCHED_MAXT) o.k = K_JOIN;
   else return false;
   return true;
@@ -176,7 +192,7 @@ static bool parseScen(HxLine& l)
   // a start/join may only name an existing program
   for(int t = 0; t < nprog; ++t)
     for(int k = 0; k < prog[t].n; ++k)
-      if((prog[t].ops[k].k == K_START || prog[t].ops[k].k == K_JOIN) && prog[t].ops[k].arg >= nprog) { prim = P_NONE; return false; }
+      if((prog[t].ops[k].k == K_START || prog[t].ops[k].k == K_MSTART || prog[t].ops[k].k == K_JOIN) && prog[t].ops[k].arg >= nprog) { prim = P_NONE; return false; }
   return true;
 }
 
